@@ -35,18 +35,20 @@ const (
 )
 
 type TunnelScenario struct {
-	Kind   string  `json:"kind"` // tcp | sni | ws
-	Proxy  int     `json:"proxy"`
-	CSeg   [][]int `json:"cseg"`
-	HL     int     `json:"hl"`
-	USeg   [][]int `json:"useg"`
-	CMode  string  `json:"cmode"` // half | close | wait
-	Trig   int     `json:"trig"`  // tokens of the client's stream the upstream reads before replying; -1 = EOF
-	UMode  string  `json:"umode"`
-	USlow  int     `json:"uslow"`  // 1: the upstream reads only after it has written everything
-	RT     int     `json:"rt"`     // 1: the listener has a read timeout and the reply comes after the client was silent for longer
-	Dead   int     `json:"dead"`   // 1: the service has two instances; the dial to the one picked first is refused
-	DeadPP int     `json:"deadpp"` // the pxyproto option of that instance (the one of the live instance is Proxy)
+	Kind    string  `json:"kind"` // tcp | sni | ws
+	Proxy   int     `json:"proxy"`
+	CSeg    [][]int `json:"cseg"`
+	HL      int     `json:"hl"`
+	USeg    [][]int `json:"useg"`
+	CMode   string  `json:"cmode"` // half | close | wait
+	Trig    int     `json:"trig"`  // tokens of the client's stream the upstream reads before replying; -1 = EOF
+	UMode   string  `json:"umode"`
+	USlow   int     `json:"uslow"`   // 1: the upstream reads only after it has written everything
+	RT      int     `json:"rt"`      // 1: the listener has a read timeout and the reply comes after the client was silent for longer
+	Dead    int     `json:"dead"`    // 1: the service has two instances; the dial to the one picked first is refused
+	DeadPP  int     `json:"deadpp"`  // the pxyproto option of that instance (the one of the live instance is Proxy)
+	DT      int     `json:"dt"`      // 1: the proxy has a dial timeout and the upstream speaks when the tunnel is older than that
+	Refresh int     `json:"refresh"` // 1: tcp-dynamic listener of a real fabio process; the tunnel lives across several refreshes
 }
 
 type TunnelCase struct {
@@ -359,7 +361,7 @@ func (r *tunnelRun) upstream(conn *net.TCPConn) {
 			return
 		}
 		for ; i < len(segs); i++ {
-			if c.Sc.RT == 1 && r.env.Late > 0 {
+			if (c.Sc.RT == 1 || c.Sc.DT == 1 || c.Sc.Refresh == 1) && r.env.Late > 0 {
 				select {
 				case <-time.After(r.env.Late):
 				case <-r.quit:
@@ -734,6 +736,10 @@ func JudgeTunnel(c *TunnelCase, res *TunnelResult) (clause, msg string) {
 	detail := fmt.Sprintf("upstream read %d of %d bytes (eof=%v err=%q), client read %d of %d bytes (eof=%v err=%q)",
 		len(res.URecv), len(res.ExpU), res.UEOF, res.UErr, len(res.CRecv), len(res.ExpC), res.CEOF, res.CErr)
 	switch {
+	case (cShort || uShort) && c.Sc.DT == 1:
+		return "tunnel-older-than-dial-timeout", "proxy with a dial timeout: data sent when the tunnel was older than that did not arrive: " + detail
+	case (cShort || uShort) && c.Sc.Refresh == 1:
+		return "tunnel-across-refresh", "tcp-dynamic listener: the tunnel did not survive the refreshes of the listener although its route never changed: " + detail
 	case cShort && c.Sc.RT == 1:
 		return "reply-after-read-timeout", "listener with a read timeout: the reply which came after the client had been silent for longer than that did not reach the client completely: " + detail
 	case uShort && c.Sc.CMode == "abort":
